@@ -340,6 +340,7 @@ def soft_walsh(logits, tau=1.0):
 
 def hard_walsh(logits, tau=1.0):
     x = torch.sigmoid(logits / tau)
-    x = (x > 0.5).to(torch.float32) - x.detach() + x
+    # threshold the form itself: sigmoid(logits / tau) rounds to exactly 0.5 for tiny positive logits / tau
+    x = (logits > 0).to(torch.float32) - x.detach() + x
     return x
 
